@@ -1,2 +1,152 @@
-/- Model driver for C17 (line protocol). Stub until the property's model lands. -/
-def main : IO Unit := pure ()
+/-
+  Model driver for C17 (line protocol, see tools/props/c17.py).  Imports Model only.
+
+  run mode=<c|d|t> k=<0|1> f=<0|1> c=<0|1> i=<0|1> sync=<0|1> root=<0|1> plan=<k:E<errno>,k:S<count>,...|-> sig=<k|->
+      move=<k>s|<k>d|-  crash=<k|->  files=<file>|<file>...
+  file = size:skip:gid:outreg:dstexists:fin:ops     ops = dot separated  R<n> W<n> Z<n> (sparse write) F<n> T I0 (init ok) I1 (init error)
+
+  Output: for every file  "<event>;<event>;...#<final fs>"  joined by " | ", then " | exit=<status|sig|crash>".
+-/
+import XzVerif.Model.Proto
+import XzVerif.Model.XzIo
+open XzVerif XzVerif.Proto XzVerif.XzIo
+
+def tgt : Target → String
+  | .src => "SRC" | .dst => "DST" | .dir => "DIR"
+
+def renderRes (isStat : Bool) : Res → String
+  | .ok v => if isStat then s!"ok{v}" else "ok"
+  | .err e => s!"E{e}"
+
+def renderCount : Res → String
+  | .ok v => s!"{v}"
+  | .err e => s!"E{e}"
+
+def renderEvent (e : Event) : String :=
+  match e.call with
+  | .openSrc nf => s!"open SRC rd{if nf then "+nofollow" else ""} -> {renderRes false e.res}"
+  | .fstat t => s!"fstat {tgt t} -> {renderRes false e.res}"
+  | .openDir => s!"open DIR dir -> {renderRes false e.res}"
+  | .unlinkForce => s!"unlink DST -> {renderRes false e.res}"
+  | .openDest => s!"open DST wr+creat+excl+0600 -> {renderRes false e.res}"
+  | .read n => s!"read SRC {n} -> {renderCount e.res}"
+  | .write n => s!"write DST {n} -> {renderCount e.res}"
+  | .lseek t off => s!"lseek {tgt t} {off} -> {renderRes false e.res}"
+  | .poll t => s!"poll {tgt t} -> {renderRes false e.res}"
+  | .fchownUid => s!"fchown DST uid -> {renderRes false e.res}"
+  | .fchownGid => s!"fchown DST gid -> {renderRes false e.res}"
+  | .fchmod => s!"fchmod DST -> {renderRes false e.res}"
+  | .futimens => s!"futimens DST -> {renderRes false e.res}"
+  | .fsync t => s!"fsync {tgt t} -> {renderRes false e.res}"
+  | .close t => s!"close {tgt t} -> {renderRes false e.res}"
+  | .stat t fo => s!"{if fo then "stat" else "lstat"} {tgt t} -> {renderRes true e.res}"
+  | .unlink t => s!"unlink {tgt t} -> {renderRes false e.res}"
+
+def optIno : Option Nat → String
+  | none => "-" | some i => toString i
+
+def b01 (b : Bool) : String := if b then "1" else "0"
+
+def sumLen (ps : List (List Unit)) : Nat := ps.foldl (fun a p => a + p.length) 0
+
+def renderFs (s : St Unit) : String :=
+  s!"src={optIno s.fs.srcName},dst={optIno s.fs.dstName},srcL={b01 s.fs.srcLinked},preL={b01 s.fs.preLinked}," ++
+  s!"ownL={b01 s.fs.ownLinked},forL={b01 s.fs.foreignLinked},ownsz={sumLen s.fs.own},outsz={sumLen s.fs.out}," ++
+  s!"durable={b01 s.fs.durable},success={b01 s.success}"
+
+def kv (ws : List String) (key : String) : Option String :=
+  ws.findSome? fun w => if w.startsWith (key ++ "=") then some ((w.drop (key.length + 1)).toString) else none
+
+def parsePlan (s : String) : Option (List (Nat × Fault)) :=
+  if s == "-" then some [] else
+  (s.splitOn ",").mapM fun ent =>
+    match ent.splitOn ":" with
+    | [ks, act] =>
+      match ks.toNat?, (act.drop 1).toString.toNat? with
+      | some k, some a =>
+        if act.startsWith "E" then some (k, Fault.err a)
+        else if act.startsWith "S" then some (k, Fault.short a)
+        else none
+      | _, _ => none
+    | _ => none
+
+def parseOp (w : String) : Option (Op Unit) :=
+  if w == "T" then some .tick
+  else if w == "I0" then some (.init .ok)
+  else if w == "I1" then some (.init .error)
+  else match (w.drop 1).toString.toNat? with
+    | none => none
+    | some n =>
+      if w.startsWith "R" then some (.read n)
+      else if w.startsWith "W" then some (.write (List.replicate n ()) false)
+      else if w.startsWith "Z" then some (.write (List.replicate n ()) true)
+      else if w.startsWith "F" then some (.fixPos n)
+      else none
+
+structure FileSpec where
+  size : Nat
+  skip : Bool
+  gid : Bool
+  outreg : Bool
+  dstExists : Bool
+  fin : Fin
+  ops : List (Op Unit)
+
+def parseFile (s : String) : Option FileSpec :=
+  match s.splitOn ":" with
+  | [sz, sk, g, orr, de, fin, ops] => do
+    let size ← sz.toNat?
+    let ops ← (if ops == "-" then some [] else (ops.splitOn ".").mapM parseOp)
+    some { size, skip := sk == "1", gid := g == "1", outreg := orr == "1", dstExists := de == "1",
+           fin := if fin == "ok" then .ok else .error, ops }
+  | _ => none
+
+def runTo (c : Cfg Unit) (limit : Nat) : Nat → St Unit → St Unit
+  | 0, s => s
+  | n + 1, s => if s.pc = .done ∨ s.k ≥ limit then s else runTo c limit n (step c s)
+
+def parseMove (s : String) : Option (Option (Nat × Bool)) :=
+  if s == "-" then some none
+  else match (s.dropEnd 1).toString.toNat? with
+    | some k => if s.endsWith "s" then some (some (k, true)) else if s.endsWith "d" then some (some (k, false)) else none
+    | none => none
+
+def optNat (s : String) : Option (Option Nat) :=
+  if s == "-" then some none else s.toNat?.map some
+
+def doRun (ws : List String) : Option String := do
+  let mode ← kv ws "mode"
+  let flag := fun key => (kv ws key) == some "1"
+  let o : Opts := { mode := if mode == "c" then .compress else if mode == "d" then .decompress else .test,
+                    keep := flag "k", force := flag "f", stdout := flag "c", stdin := flag "i",
+                    sync := flag "sync", root := flag "root" }
+  let plan ← parsePlan (← kv ws "plan")
+  let sig ← optNat (← kv ws "sig")
+  let move ← parseMove (← kv ws "move")
+  let crash ← optNat (← kv ws "crash")
+  let files ← ((← kv ws "files").splitOn "|").mapM parseFile
+  let limit := match crash with | some k => k - 1 | none => 100000000
+  let fault : Nat → Option Fault := fun k => (plan.find? (·.1 == k)).map (·.2)
+  let rec go (fs : List FileSpec) (k exitSt : Nat) (abort crashed : Bool) (acc : List String) : List String × Nat × Bool × Bool :=
+    match fs with
+    | [] => (acc.reverse, exitSt, abort, crashed)
+    | f :: rest =>
+      if abort || crashed then go rest k exitSt abort crashed acc
+      else
+        let c : Cfg Unit := { o, srcSize := f.size, srcSkip := f.skip, gidDiffers := f.gid, outRegular := f.outreg,
+                              ops := f.ops, fin := f.fin, fault, signalAt := sig, moveAt := move, zero := () }
+        let s0 := start c f.dstExists k exitSt
+        -- a process that is to die before its (k+1)-th call makes no call at all when the limit is already reached
+        let s := runTo c limit 1000000 s0
+        let tr := ";".intercalate (s.trace.reverse.map renderEvent)
+        go rest s.k s.exitSt s.userAbort (s.pc != .done) ((tr ++ "#" ++ renderFs s) :: acc)
+  let (outs, exitSt, abort, crashed) := go files 0 0 false false []
+  let ex := if crashed then "crash" else if abort then "sig" else toString exitSt
+  some (" | ".intercalate outs ++ " | exit=" ++ ex)
+
+def stepLine (_ : Unit) (ws : List String) : Unit × String :=
+  match ws with
+  | "run" :: rest => ((), (doRun rest).getD "bad-op")
+  | _ => ((), "bad-op")
+
+def main : IO Unit := runLoop stepLine ()
